@@ -1,5 +1,6 @@
 import AsmjitVerif.Model.CallConv
 import AsmjitVerif.Spec.ABI
+import AsmjitVerif.Spec.Machine
 import Driver.Common
 open AsmjitVerif.CallConv
 namespace Driver.C06
@@ -90,6 +91,94 @@ def monFd (ws : List String) : String :=
     | _, _, _, _, _, _, _, _, _ => "bad-op"
   | _ => "bad-op"
 
+
+/-! ### monitor of the argument shuffle: the implementation's instruction list run on Spec/Machine.lean -/
+namespace Shuffle
+open AsmjitVerif.Machine
+
+def parseOpnd (s : String) : Option Opnd :=
+  match s.toList with
+  | 'r' :: rest =>
+    match ((String.ofList rest).splitOn ".").mapM (·.toNat?) with
+    | some [rt, id] => some (.reg rt id)
+    | _ => none
+  | 'm' :: rest =>
+    match (String.ofList rest).splitOn "." with
+    | [b, o, sz] => do some (.mem (← b.toNat?) (← o.toInt?) (← sz.toNat?))
+    | _ => none
+  | _ => none
+
+def parseInst (s : String) : Option Inst :=
+  match words s with
+  | name :: ops => do some { name := name, ops := ← ops.mapM parseOpnd }
+  | [] => none
+
+/-- `RegUtils::type_id_of` for the register types a destination may have -/
+def typeIdOfReg (rt : Nat) : Nat :=
+  if rt = 2 || rt = 3 then 34 else if rt = 4 then 36 else if rt = 5 then 38 else if rt = 6 then 40 else if rt = 9 then 55
+  else if rt = 10 then 65 else if rt = 11 then 75 else if rt = 12 then 85 else if rt = 13 then 95 else if rt = 28 then 50 else 0
+
+/-- destination token `-` | `r<rt>.<id>[.<tid>]` | `s<off>[.<tid>]` → (location, explicit type) -/
+def parseDst (s : String) : Option (Option (Loc × Nat × Nat)) :=   -- (loc, regtype or 0, type or 0)
+  if s == "-" then some none else
+  match s.toList with
+  | 'r' :: rest =>
+    match ((String.ofList rest).splitOn ".").mapM (·.toNat?) with
+    | some [rt, id] => some (some (.reg (groupOf rt) id, rt, 0))
+    | some [rt, id, t] => some (some (.reg (groupOf rt) id, rt, t))
+    | _ => none
+  | 's' :: rest =>
+    match ((String.ofList rest).splitOn ".") with
+    | [o] => do some (some (.outStack (← o.toInt?), 0, 0))
+    | [o, t] => do some (some (.outStack (← o.toInt?), 0, ← t.toNat?))
+    | _ => none
+  | _ => none
+
+/-- `monsh <sig> <ff> <sa> <dst>*n | <implementation answer>` -/
+def monStep (ws : List String) : String :=
+  match parseSig ws with
+  | some (e, sig, _ff :: _sa :: rest) =>
+    let n := sig.args.length
+    let dsts := rest.take n
+    match rest.drop n with
+    | "|" :: status :: more =>
+      if status != "ok" then "refused" else
+      match more with
+      | saTok :: "|" :: instWords =>
+        match initFuncDetail e sig, dsts.mapM parseDst, (saTok.drop 3).toString.splitOn "." with
+        | .ok (_, d), some ds, [saId, _, saOff] =>
+          match saId.toNat?, saOff.toInt?, ((" ".intercalate instWords).splitOn ";").filter (· ≠ "") |>.mapM parseInst with
+          | some saId, some saOff, some insts =>
+            let sp := if e.arch = .a64 then 31 else 4
+            let srcs := d.args.map (·.headD (FuncValue.ofType 0))
+            let vars : List VarInfo := (srcs.zip ds).map fun (src, dd) =>
+              match dd with
+              | some (_, rt, t) => { srcType := src.typeId, dstType := if t ≠ 0 then t else if rt ≠ 0 then typeIdOfReg rt else src.typeId }
+              | none => { srcType := src.typeId, dstType := src.typeId }
+            let idx := List.range n
+            let init : State := (idx.zip (srcs.zip ds)).filterMap fun (i, src, dd) =>
+              match dd with
+              | none => none
+              | some _ =>
+                if src.isReg then some (Loc.reg (groupOf src.regType) src.regId, { var := i, ext := false })
+                else if src.isStack then some (Loc.argStack src.stackOffset, { var := i, ext := false }) else none
+            let dests : List (Nat × Loc) := (idx.zip ds).filterMap fun (i, dd) => dd.map fun (l, _, _) => (i, l)
+            match run vars saId saOff sp init insts with
+            | none => "BAD unknown-instruction-or-address"
+            | some fin =>
+              if shuffleOk vars dests fin then "good"
+              else
+                let bad := dests.filter fun (v, l) => !destOk vars fin v l
+                "BAD dest-of-arg " ++ toString (bad.map (·.1))
+          | _, _, _ => "bad-op insts"
+        | .error m, _, _ => "skip fd-" ++ m
+        | _, _, _ => "bad-op dst"
+      | _ => "bad-op ans"
+    | _ => "bad-op sep"
+  | _ => "bad-op sig"
+
+end Shuffle
+
 def step (_ : Unit) (line : String) : Unit × String :=
   match words line with
   | ["cc", e, id] =>
@@ -107,6 +196,7 @@ def step (_ : Unit) (line : String) : Unit × String :=
       | .error m => ((), "err " ++ m)
     | _ => ((), "bad-op")
   | "monfd" :: rest => ((), monFd rest)
+  | "monsh" :: rest => ((), Shuffle.monStep rest)
   | _ => ((), "bad-op")
 
 def main : IO Unit := do
